@@ -87,7 +87,25 @@ class C07(SeqProp):
                     post = float(op["pulse"].get("post", 0.0)) if k == "add" else float(op.get("post", 0.0))
                     for q in tgs:
                         exp[basis][q] = exp[basis][q] + post
-                    if op.get("correct"):
+                    if op.get("correct") and k == "add_eom" and cs.eom_blocks:
+                        # drift correction, re-derived from the schedule: the phase accumulated at
+                        # the block's off-detuning while the channel idled, from the end of its last
+                        # real pulse (or the start of the block) to the START of this pulse
+                        blk = cs.eom_blocks[-1]
+                        last_tf = 0
+                        for sl in reversed(prev[name]):
+                            if isinstance(sl.type, Pulse) and not cs.is_detuned_delay(sl.type):
+                                last_tf = sl.tf
+                                break
+                        drift = -float(blk.detuning_off) * (new.ti - max(int(blk.ti), last_tf)) * 1e-3
+                        r0 = before.get(basis, {}).get(tgs[0]) if tgs else None
+                        if r0 is not None:
+                            if not close_mod(float(new.type.phase), programmed + r0 - drift):
+                                bad("eom-pulse-phase-not-programmed-plus-drift-corrected-reference",
+                                    f"channel {name}: scheduled phase {float(new.type.phase)}, programmed {programmed}, reference {r0}, drift {drift} (pulse starts at {new.ti})")
+                        for q in tgs:
+                            exp[basis][q] = exp[basis][q] - drift
+                    elif op.get("correct"):
                         resync |= {(basis, q) for q in tgs}
             if k in ("enable_eom", "modify_eom", "disable_eom") and op.get("correct") and name in cur:
                 ch = seq._schedule[name].channel_obj
